@@ -57,6 +57,65 @@ let obs (s : nstate) (outs : output list) =
     (match s.pparts with None -> "-" | Some ps -> si ps.ps_hdr ^ ":" ^ (if ps_complete s ps then "1" else "0"))
     (si s.commit_round) (if s.tt_precommit then "1" else "0") o
 
+(* ---- validateBlock (C03/Validate.v) on the projection the harness prints in a VB line ---- *)
+let cerr_s = function
+  | COk -> "ok" | CBasic -> "basic" | CSize -> "size" | CHeight -> "height" | CBlockID -> "blockid"
+  | CSig -> "sig" | CAddr -> "addr" | CPower -> "power"
+let verr_s = function
+  | VOk -> "ok" | VBasic -> "basic" | VHeight -> "height" | VLastID -> "lastid" | VApp -> "app"
+  | VVals -> "vals" | VNextVals -> "nextvals" | VNilCommit -> "nilcommit" | VFirstCommit -> "firstcommit"
+  | VCommit e -> "commit-" ^ cerr_s e | VTimeNotAfter -> "time-not-after" | VTimeNotMedian -> "time-not-median"
+  | VTimeGenesis -> "time-genesis" | VBelowInitial -> "below-initial" | VEvidenceCount -> "evidence-count"
+  | VProposer -> "proposer" | VEvidence -> "evidence"
+
+let take3 = function
+  | a :: b :: c :: r -> ({ b_hash0 = n_of_string a; b_total = n_of_string b; b_phash = n_of_string c }, r)
+  | _ -> failwith "VB: block id"
+let rec take_sigs k l acc =
+  if k = 0 then (List.rev acc, l) else
+  match l with
+  | flag :: addr :: tm :: sid :: sempty :: signer :: chain :: ty :: sh :: sr :: r ->
+    let (sb, r) = take3 r in
+    (match r with
+     | stime :: r ->
+       let sg = { s_id = n_of_string sid; s_empty = (sempty = "1"); s_signer = n_of_string signer; s_chain = n_of_string chain;
+                  s_type = n_of_string ty; s_height = n_of_string sh; s_round = n_of_string sr; s_bid = sb; s_time = n_of_string stime } in
+       take_sigs (k - 1) r ({ cs_flag = n_of_string flag; cs_addr = n_of_string addr; cs_time = n_of_string tm; cs_sig = sg } :: acc)
+     | _ -> failwith "VB: signature time")
+  | _ -> failwith "VB: commit signature"
+
+let validators () = List.mapi (fun i p -> { val_addr = n_of_int (i + 1); val_power = p }) !powers
+
+let do_vb toks =
+  match toks with
+  | ih :: lh :: r ->
+    let (lbid, r) = take3 r in
+    (match r with
+     | ltime :: app :: vh :: nvh :: maxev :: "|" :: bh :: btime :: r ->
+       let (blast, r) = take3 r in
+       (match r with
+        | bapp :: bvh :: bnvh :: prop :: wf :: lch :: nev :: evok :: "|" :: r ->
+          let lc = (match r with
+            | ["N"] -> None
+            | "C" :: ch :: cr :: r ->
+              let (cb, r) = take3 r in
+              (match r with
+               | n :: r -> let (sigs, _) = take_sigs (int_of_string n) r [] in
+                 Some { c_height = n_of_string ch; c_round = n_of_string cr; c_bid = cb; c_sigs = sigs }
+               | _ -> failwith "VB: commit")
+            | _ -> failwith "VB: last commit") in
+          let vs = validators () in
+          let st = { ch_id = n_of_int 1; ch_initial = z_of_string ih; ch_last_height = z_of_string lh; ch_last_bid = lbid;
+                     ch_last_time = z_of_string ltime; ch_app = n_of_string app; ch_vals_hash = n_of_string vh;
+                     ch_nextvals_hash = n_of_string nvh; ch_last_vals = vs; ch_vals = vs; ch_max_evid = z_of_string maxev } in
+          let b = { vb_hdr = { vh_height = z_of_string bh; vh_time = z_of_string btime; vh_last = blast; vh_app = n_of_string bapp;
+                               vh_vals = n_of_string bvh; vh_nextvals = n_of_string bnvh; vh_proposer = n_of_string prop };
+                    vb_wf = (wf = "1"); vb_lc = lc; vb_lch_ok = (lch = "1"); vb_nevid = z_of_string nev; vb_evid_ok = (evok = "1") } in
+          print_endline ("vb:" ^ verr_s (validate_block st b))
+        | _ -> failwith "VB: block")
+     | _ -> failwith "VB: state")
+  | _ -> failwith "VB"
+
 let () =
   let cfg = ref { skip_timeout_commit = false; create_empty_blocks = true; empty_interval_pos = false; initial_height = n_of_int 1 } in
   let me = ref None in
@@ -94,6 +153,7 @@ let () =
        | ["V"; peer; ty; h; r; bh; bp; idx; ok] ->
          do_step (InVote (nn peer, { v_type = (if ty = "1" then Prevote else Precommit); v_height = nn h; v_round = nn r;
                                      v_bid = { bh = nn bh; bp = nn bp }; v_idx = nn idx; v_ok = (ok = "1") }))
+       | "VB" :: toks -> do_vb toks
        | ["T"; h; r; s] -> do_step (InTimeout (nn h, nn r, step_of_int (int_of_string s)))
        | l -> failwith ("bad line: " ^ String.concat " " l));
       loop () in
